@@ -227,6 +227,10 @@ pub struct Sim {
     /// replies of API calls seen so far: call id -> value
     pub replies: HashMap<usize, Value>,
     pub last_metrics: HashMap<String, i64>,
+    /// every parsed packet sent so far: (daemon, interface, v4, multicast, message); drivers drain it
+    pub sent_log: Vec<(usize, u32, bool, bool, Msg)>,
+    /// every event seen so far (drivers drain it)
+    pub event_log: Vec<Value>,
 }
 
 pub fn now_rel(w: &World) -> u64 {
@@ -251,6 +255,8 @@ impl Sim {
             hung: false,
             replies: HashMap::new(),
             last_metrics: HashMap::new(),
+            sent_log: Vec::new(),
+            event_log: Vec::new(),
         };
         let hj: Vec<Value> = s.hosts.iter().map(|h| ifs_json(h)).collect();
         s.log(json!({"e": "reset", "scen": scen, "seed": seed, "hosts": hj}));
@@ -397,6 +403,9 @@ impl Sim {
         for e in &mine {
             let parsed = wire::parse(&e.bytes);
             let mc = e.dest.ip().is_multicast();
+            if let Ok(m) = &parsed {
+                self.sent_log.push((i, e.out_if.unwrap_or(0), e.v4, mc, m.clone()));
+            }
             sent.push(json!({
                 "if": e.out_if.unwrap_or(0), "ifn": self.if_name(host, e.out_if.unwrap_or(0)),
                 "v4": e.v4, "dst": e.dest.ip().to_string(), "port": e.dest.port(), "mc": mc,
@@ -405,6 +414,7 @@ impl Sim {
             }));
         }
         let events = std::mem::take(&mut self.daemons[i].evbuf);
+        self.event_log.extend(events.iter().cloned());
         self.daemons[i].iters += 1;
         let wake = self.daemons[i].wake.map(|w| w as i64 - T0 as i64).unwrap_or(-1);
         let line = json!({"e": "iter", "d": i, "startup": startup, "sent": sent, "events": events, "replies": replies,
